@@ -45,7 +45,7 @@ TT = 'chainables.tree'
 
 
 def run(ctx: Ctx):
-  for r in (r1, r2, r3, r4, r5, r6, r8, r9, r10):
+  for r in (r1, r2, r3, r4, r5, r6, r8, r9, r10, r13):
     ctx.guard(r)
   from mlmverif.props import c03
   ctx.include('R-C02-7', 'every sliced aggregate sees every slice: the slices of'
@@ -545,6 +545,66 @@ def r10(ctx: Ctx):
   ctx.floor(rule, 3, n)
 
 
+def r13(ctx: Ctx):
+  rule = 'R-C02-13'
+  ctx.rule(rule, '"exactly the aggregate over the rows (or masked elements) belonging to that slice": an'
+           ' array mask FILTERS by boolean indexing only when it is known to be boolean. In apply_mask'
+           ' the fast path `np.asarray(items)[masks]` / `np.where(masks, ...)` is dominated by a test'
+           ' that the mask\'s dtype IS bool (== bool / np.bool_, kind == \'b\'); a wider guard (e.g. "not'
+           ' object") sends 0/1 integer masks down the same path, where they are read as row'
+           ' POSITIONS: the slice aggregates rows 0 and 1 repeated instead of the rows where the mask'
+           ' is 1')
+  fi = ctx.repo.func(TT, 'apply_mask')
+  g = cfgm.cfg_of(fi.node)
+  a_ = fi.node.args
+  mp = next((p_.arg for p_ in a_.posonlyargs + a_.args + a_.kwonlyargs if p_.annotation is not None
+             and 'bool' in unparse(p_.annotation)), None)
+  if mp is None:
+    raise AnalysisError(f'{rule}: apply_mask has no parameter annotated as a tree of bool')
+  fancy = [nd for nd in g.nodes if nd.kind in ('stmt', 'cond') and any(
+      isinstance(x, ast.Subscript) and isinstance(x.slice, ast.Name) and x.slice.id == mp
+      for x in cfgm.node_exprs(nd))]
+  if not fancy:
+    raise AnalysisError(f'{rule}: apply_mask no longer indexes with the mask array')
+
+  def is_bool_test(t):
+    for c in ast.walk(t):
+      if isinstance(c, ast.Compare) and len(c.ops) == 1 and isinstance(c.ops[0], (ast.Eq, ast.Is)):
+        sides = [unparse(c.left), unparse(c.comparators[0])]
+        if any('dtype' in s_ for s_ in sides) and any(s_ in ('bool', 'np.bool_', 'np.dtype(bool)', "'b'", '"b"') for s_ in sides):
+          return True
+      if isinstance(c, ast.Call) and unparse(c.func) in ('np.issubdtype',) and len(c.args) == 2 and unparse(c.args[1]) in (
+          'np.bool_', 'bool'):
+        return True
+    return False
+
+  n = 0
+  for nd in fancy:
+    n += 1
+    guard = lambda q: q.kind == 'cond' and is_bool_test(q.ast)
+    # every path to the indexing passes the TRUE edge of a bool-dtype test
+    def edge_ok(a, b, lab):
+      if lab in ('exc', 'close'):
+        return False
+      return True
+    reach = g.reachable([g.entry], avoid=guard, edge_ok=edge_ok)
+    via_false = False
+    for q in g.nodes:
+      if guard(q):
+        fs = [s_ for s_, lab in q.succ if lab == 'false']
+        r2_ = g.reachable(fs, avoid=guard, edge_ok=edge_ok, include_src=True)
+        if nd in r2_:
+          via_false = True
+    if nd in reach or via_false:
+      ctx.fail(rule, fi, 'apply_mask: boolean indexing only under a bool-dtype test of the mask',
+               f'`{nd.text()[:50]}` is reachable without the mask having been tested for a boolean dtype: an integer'
+               ' 0/1 mask is then used as fancy index (row positions) and the slice is computed over the wrong'
+               ' rows — all keys present, unsliced result unchanged, values silently wrong', node=nd.ast)
+    else:
+      ctx.ok(rule, fi, 'mask indexing guarded by dtype == bool', nd.ast)
+  ctx.floor(rule, 1, n)
+
+
 def r5(ctx: Ctx):
   rule = 'R-C02-5'
   ctx.rule(rule, 'slices do not inherit each other\'s mask configuration: when'
@@ -714,6 +774,10 @@ from mlmverif.selfcheck import B, OK  # noqa: E402
 _T = 'chainables/transform.py'
 _F = 'chainables/tree_fns.py'
 VARIANTS = [
+    B('integer-masks-take-the-boolean-path', 'chainables/tree.py',
+      "    if hasattr(masks, '__array__') and getattr(masks, 'dtype') == bool:", "    if hasattr(masks, '__array__') and getattr(masks, 'dtype') != object:", 'R-C02-13'),
+    OK('bool-dtype-test-via-numpy-name', 'chainables/tree.py',
+       "    if hasattr(masks, '__array__') and getattr(masks, 'dtype') == bool:", "    if hasattr(masks, '__array__') and masks.dtype == np.bool_:"),
     B('runner-caches-initial-state', 'chainables/transform.py',
       '  def create_state(self) -> _AggState:\n    return {\n        MetricKey(key): tree_fn.create_state()\n        for key, tree_fn in self.agg_fns.items()\n    }',
       '  @functools.cached_property\n  def _initial_state(self) -> _AggState:\n    return {\n        MetricKey(key): tree_fn.create_state()\n        for key, tree_fn in self.agg_fns.items()\n    }\n\n  def create_state(self) -> _AggState:\n    return dict(self._initial_state)',
